@@ -171,7 +171,7 @@ def sm2_scalar(cx):
     if g is not None:
         LI = 'each(Range::Range{0, 4})'        # limb index and limb of `for (i, w) in g.iter().enumerate()`, in index form
         M = 'each(Range::Range{0, 8})'
-        RAW = '(BitAnd(Shr($g[%s], MulWithOverflow(8, %s).0), 255) as usize)' % (LI, M)
+        RAW = '((Shr($g[%s], MulWithOverflow(8, %s).0) as u8) as usize)' % (LI, M)
         ROW = 'AddWithOverflow(MulWithOverflow(8, %s).0, %s).0' % (LI, M)
         tr = I.transfer(g, F, 'Range::Range{0, 8}', ['r', 'raw_index'])
         want_r = 'phi(point_add(var:r@in, to_jacobi(SM2P256_PRECOMPUTED[%s][SubWithOverflow(MulWithOverflow(%s, 2).0, 2).0], SM2P256_PRECOMPUTED[%s][SubWithOverflow(MulWithOverflow(%s, 2).0, 1).0])) | var:r@in)' % (ROW, RAW, ROW, RAW)
